@@ -32,7 +32,7 @@ package v1alpha1
 //@        && result.DeletionTimestamp == in.DeletionTimestamp && result.OwnerReferences == in.OwnerReferences
 //@   ensures in != nil ==> sameMap(result.Annotations, in.Annotations) && (in.Annotations != nil ==> fresh(result.Annotations) && result.Annotations != in.Annotations)
 //@   ensures in != nil ==> sameMap(result.Labels, in.Labels) && (in.Labels != nil ==> fresh(result.Labels) && result.Labels != in.Labels)
-//@   ensures in != nil ==> len(result.Finalizers) == len(in.Finalizers) && (forall i int :: 0 <= i && i < len(in.Finalizers) ==> result.Finalizers[i] == in.Finalizers[i])
+//@   ensures in != nil ==> sameStrs(result.Finalizers, in.Finalizers)
 //@   ensures in != nil ==> result.Status.Phase == in.Status.Phase && result.Status.State == in.Status.State && result.Status.Condition == in.Status.Condition
 //@        && result.Status.StartTime == in.Status.StartTime && result.Status.CreatedTasks == in.Status.CreatedTasks && result.Status.RunningTasks == in.Status.RunningTasks
 //@        && result.Status.ParallelStatus == in.Status.ParallelStatus
@@ -51,6 +51,7 @@ package v1alpha1
 //@   ensures [C08] retry-delay-value: result == retryDelaySeconds(j) * 1000000000
 
 // value equality of optional timestamps (deep copies produce new pointers with equal pointees)
+//@ pure sameStrs(a []string, b []string) bool = len(a) == len(b) && (forall i int :: 0 <= i && i < len(a) ==> a[i] == b[i])
 //@ pure tsSame(a *metav1.Time, b *metav1.Time) bool = (a == nil) == (b == nil) && (a != nil ==> a.Time == b.Time)
 //@ pure statusSame(a *TaskStatus, b *TaskStatus) bool = (a == nil) == (b == nil) && (a != nil ==> *a == *b)
 //@ pure indexSame(a *ParallelIndex, b *ParallelIndex) bool = (a == nil) == (b == nil)
